@@ -426,8 +426,40 @@ fn sem_collect_x<V: Mk, N: ArrayLength>() -> Option<String> {
     } }
     None
 }
+/// every mutable view starts at (and, for split, continues inside) the source storage - also when the view is empty
+fn sem_mutviews() -> Option<String> {
+    use generic_array::sequence::{Flatten, Split, Unflatten};
+    macro_rules! split_at { ($N:ty, $K:ty) => {{
+        let mut a: GenericArray<u32, $N> = GenericArray::generate(|i| i as u32);
+        let base = a.as_mut_ptr() as usize;
+        let (h, t) = Split::<u32, $K>::split(&mut a);
+        let (hp, tp, hl, tl) = (h.as_ptr() as usize, t.as_ptr() as usize, h.len(), t.len());
+        if hp != base || hl != <$K>::USIZE { return Some(format!("split::<U{}> of &mut GenericArray<u32, U{}>: head is not the first K elements of the source", <$K>::USIZE, <$N>::USIZE)); }
+        if tp != base + 4 * <$K>::USIZE || tl != <$N>::USIZE - <$K>::USIZE { return Some(format!("split::<U{}> of &mut GenericArray<u32, U{}>: the tail ({} element(s)) starts at offset {} bytes instead of {}", <$K>::USIZE, <$N>::USIZE, tl, tp.wrapping_sub(base) as isize, 4 * <$K>::USIZE)); }
+        let a2: GenericArray<u32, $N> = GenericArray::generate(|i| i as u32);
+        let base2 = a2.as_ptr() as usize;
+        let (h2, t2) = Split::<u32, $K>::split(&a2);
+        if h2.as_ptr() as usize != base2 || t2.as_ptr() as usize != base2 + 4 * <$K>::USIZE { return Some(format!("split::<U{}> of &GenericArray<u32, U{}>: parts are not adjacent sub-ranges of the source", <$K>::USIZE, <$N>::USIZE)); }
+    }} }
+    split_at!(U4, U0); split_at!(U4, U1); split_at!(U4, U2); split_at!(U4, U4); split_at!(U1, U1); split_at!(U1, U0); split_at!(U0, U0); split_at!(U7, U7); split_at!(U7, U3);
+    let mut nested: GenericArray<GenericArray<u32, U2>, U3> = GenericArray::generate(|_| GenericArray::generate(|_| 0));
+    let nb = nested.as_mut_ptr() as usize;
+    { let f: &mut GenericArray<u32, U6> = (&mut nested).flatten(); if f.as_ptr() as usize != nb || f.len() != 6 { return Some("flatten(&mut): not the same storage".into()); } }
+    let mut flat: GenericArray<u32, U6> = GenericArray::generate(|_| 0);
+    let fb = flat.as_mut_ptr() as usize;
+    { let u: &mut GenericArray<GenericArray<u32, U2>, U3> = (&mut flat).unflatten(); if u.as_ptr() as usize != fb || u.len() != 3 { return Some("unflatten(&mut): not the same storage".into()); } }
+    let mut n = [0u32; 4];
+    let nb2 = n.as_mut_ptr() as usize;
+    { let g: &mut GenericArray<u32, U4> = (&mut n).into(); if g.as_ptr() as usize != nb2 { return Some("From<&mut [T; N]>: not the same storage".into()); } }
+    { let g: &mut GenericArray<u32, U4> = GenericArray::from_mut_slice(&mut n[..]); if g.as_ptr() as usize != nb2 { return Some("from_mut_slice: not the same storage".into()); } }
+    let mut e: [u32; 0] = [];
+    let eb = e.as_mut_ptr() as usize;
+    { let g: &mut GenericArray<u32, U0> = GenericArray::from_mut_slice(&mut e[..]); if g.as_ptr() as usize != eb { return Some("from_mut_slice (empty): not the source address".into()); } }
+    None
+}
 fn semantic(sc: &str) -> Option<String> {
     if sc.starts_with("hex") { return sem_hex(); }
+    if sc.starts_with("mutprov") { return sem_mutviews(); }
     if let Some(op) = sc.strip_prefix("order.") {
         let quiet = std::panic::take_hook();
         std::panic::set_hook(Box::new(|_| {}));
@@ -641,7 +673,7 @@ fn mutprov() {
 
 fn main() {
     let args: Vec<String> = std::env::args().collect();
-    if args[1] == "mutprov" { mutprov(); return; }
+    if args[1] == "mutprov" && args.get(2).map(|s| s.as_str()) != Some("semantic") { mutprov(); return; }
     if args[1] == "validate.iter" { validate_iter(); return; }
     if args[1].ends_with(".oob") {
         match oob_sweep(&args[1]) {
